@@ -339,6 +339,110 @@ def scenario_case(name, opname):
     return probs
 
 
+# ------------------------------------------------------------------------------------------------
+# frozen classes are constructed, and evolved through descriptors, exactly like their unfrozen twins
+# ------------------------------------------------------------------------------------------------
+TWIN_SRC = {
+    "post_init_assigns": """
+@spec_class(frozen={frozen})
+class T:
+    x: int = 1
+    def __post_init__(self):
+        self.double = self.x * 2          # completing the new instance is part of constructing it
+""",
+    "overflow": """
+@spec_class(frozen={frozen}, init_overflow_attr="extra")
+class T:
+    x: int = 1
+""",
+    "keyed_overflow_post_init": """
+@spec_class(frozen={frozen}, key="name", init_overflow_attr="extra")
+class T:
+    name: str
+    x: int = 1
+    def __post_init__(self):
+        self.tag = self.name + "!"
+""",
+    "setter_and_deleter": """
+@spec_class(frozen={frozen})
+class T:
+    unit: str = "C"
+    value: float
+    @property
+    def value(self):
+        return self.__dict__.get("stored", 0.0)
+    @value.setter
+    def value(self, v):
+        self.stored = v                     # the property keeps its value in another attribute
+    @value.deleter
+    def value(self):
+        self.stored = None
+""",
+    "invalidated_property_with_setter": """
+@spec_class(frozen={frozen})
+class T:
+    unit: str = "C"
+    value: float
+    @spec_property(invalidated_by=["unit"])
+    def value(self):
+        return self.__dict__.get("stored", 0.0)
+    @value.setter
+    def value(self, v):
+        self.stored = v
+    @value.deleter
+    def value(self):
+        self.__dict__.pop("stored", None)
+""",
+}
+TWIN_CALLS = {
+    "construct": lambda T: T(**({"name": "n"} if "name" in T.__spec_class__.attrs else {})),
+    "construct_kw": lambda T: T(x=5, **({"name": "n"} if "name" in T.__spec_class__.attrs else {})) if "x" in T.__spec_class__.attrs else T(unit="K"),
+    "construct_extra": lambda T: T(zzz=3, **({"name": "n"} if "name" in T.__spec_class__.attrs else {})),
+    "with_first": lambda T: TWIN_CALLS["construct"](T).with_x(7) if "x" in T.__spec_class__.attrs else TWIN_CALLS["construct"](T).with_unit("F"),
+    "with_value": lambda T: TWIN_CALLS["construct"](T).with_value(2.5),
+    "with_value_then_unit": lambda T: TWIN_CALLS["construct"](T).with_value(2.5).with_unit("F"),
+    "reset_value": lambda T: TWIN_CALLS["construct"](T).with_value(2.5).reset_value(),
+    "reset": lambda T: TWIN_CALLS["construct"](T).with_value(2.5).reset() if "value" in T.__spec_class__.attrs else TWIN_CALLS["construct"](T).reset(),
+    "update": lambda T: TWIN_CALLS["construct"](T).update(value=1.5, unit="K") if "value" in T.__spec_class__.attrs else TWIN_CALLS["construct"](T).update(x=3),
+}
+
+
+def twin_construct_case(shape, call):
+    """-> (outcome of the unfrozen twin, outcome of the frozen class)"""
+    outs = []
+    for frozen in (False, True):
+        ns = {"__name__": "verif_c07_twin"}
+        exec(compile(G.PRELUDE, "<c07-prelude>", "exec", dont_inherit=True), ns)
+        exec(compile(TWIN_SRC[shape].format(frozen=frozen), "<c07-twin>", "exec", dont_inherit=True), ns)
+        try:
+            r = TWIN_CALLS[call](ns["T"])
+            outs.append(("ok", repr(sorted((k, repr(v)) for k, v in vars(r).items() if not k.startswith("__")))))
+        except Exception as e:
+            outs.append(("raised", type(e).__name__))
+    return outs
+
+
+def twin_construct_worker(task):
+    C = Counter()
+    for shape in TWIN_SRC:
+        for call in TWIN_CALLS:
+            twin, frozen = twin_construct_case(shape, call)
+            C.inc("states")
+            C.inc("transitions")
+            C.inc("evaluations")
+            case = {"part": "twin_construct", "shape": shape, "call": call}
+            if twin[0] == "raised" and frozen[0] == "raised":
+                continue  # the call does not apply to this shape (judged only where the twin succeeds)
+            if twin != frozen:
+                C.viol(violation(PROP, {"part": "twin_construct", "shape": shape, "call": call, "kind": "frozen_differs_from_twin",
+                                        "frozen": frozen[1] if frozen[0] == "raised" else "ok"}, {"twin": twin, "frozen": frozen}, case))
+            else:
+                C.inc("traces_validated_against_impl")
+                C.nontrivial((shape, call))
+    C.sample({"part": "twin_construct", "shapes": list(TWIN_SRC), "calls": list(TWIN_CALLS)})
+    return C.rec
+
+
 def scenarios_worker(task):
     C = Counter()
     for name in ("copy_in_post_init", "escapes_failed_init", "frozen_do_not_copy", "peer_during_post_init"):
@@ -358,6 +462,8 @@ def scenarios_worker(task):
 
 
 def dispatch(task):
+    if task.get("part") == "twin_construct":
+        return twin_construct_worker(task)
     return scenarios_worker(task) if task.get("part") == "scenario" else explore_twins(task)
 
 
@@ -387,6 +493,12 @@ def seen_key_of(seen, hist):
 
 
 def run_case(case):
+    if case.get("part") == "twin_construct":
+        twin, frozen = twin_construct_case(case["shape"], case["call"])
+        if twin != frozen and not (twin[0] == "raised" and frozen[0] == "raised"):
+            return [violation(PROP, {"part": "twin_construct", "shape": case["shape"], "call": case["call"], "kind": "frozen_differs_from_twin",
+                                     "frozen": frozen[1] if frozen[0] == "raised" else "ok"}, {"twin": twin, "frozen": frozen}, case)]
+        return []
     if case.get("part") == "scenario":
         probs = scenario_case(case["scenario"], case["op"])
         return [violation(PROP, {"part": "scenario", "scenario": case["scenario"], "op": case["op"], "kind": "frozen_instance_not_protected"},
@@ -481,6 +593,7 @@ def main(run):
                                    "opts": {"leaf_is_frozen": True}},
                           "depth": d, "tier": run.tier, "max_states": 600})
     tasks.append({"part": "scenario"})
+    tasks.append({"part": "twin_construct"})
     for rec in pmap(dispatch, tasks):
         run.merge(rec)
     run.add(rule=(
